@@ -37,3 +37,23 @@ theorem diff_cumsum (a : ℕ → ℝ) (j : ℕ) :
     (∑ i ∈ range (j + 1), a i) - (∑ i ∈ range j, a i) = a j := by
   rw [Finset.sum_range_succ]
   ring
+
+/-- linearity of a finite sum in a constant factor (C10: the `sum-linearity` normal form of vp/mxr.PrefixSum) -/
+theorem sum_const_mul (n : ℕ) (c : ℝ) (w : ℕ → ℝ) :
+    ∑ i ∈ range n, c * w i = c * ∑ i ∈ range n, w i := by
+  rw [Finset.mul_sum]
+
+/-- a non-empty sum of positive weights is positive (C10: the denominator of a weighted average) -/
+theorem sum_pos_of_pos (n : ℕ) (hn : 0 < n) (w : ℕ → ℝ) (hw : ∀ i, i < n → 0 < w i) :
+    0 < ∑ i ∈ range n, w i := by
+  apply Finset.sum_pos
+  · intro i hi
+    exact hw i (Finset.mem_range.mp hi)
+  · exact ⟨0, Finset.mem_range.mpr hn⟩
+
+/-- the weighted average of a constant field is the constant (C10 value lemma, any number of cells) -/
+theorem weighted_mean_const (n : ℕ) (hn : 0 < n) (c : ℝ) (w : ℕ → ℝ) (hw : ∀ i, i < n → 0 < w i) :
+    (∑ i ∈ range n, c * w i) / (∑ i ∈ range n, w i) = c := by
+  have h := sum_pos_of_pos n hn w hw
+  rw [sum_const_mul]
+  field_simp
